@@ -34,6 +34,46 @@ def load_known():
         return json.load(f)["findings"]
 
 
+class KnownIndex:
+    """Committed known findings of one property, matched by (rule, function, site).  The function is identified by its NAME (moving it to another
+    module is not a new finding) or, when the committed key names the ROLE the function plays (`"role"`: the sync directory serialiser, the tile
+    store's adder, its layout function), by that role as the rules themselves locate it on the tree under analysis (renaming the private function
+    that holds the defect is not a new finding either).  Rule and site text must match exactly in every case."""
+
+    def __init__(self, prop, facts_by_cfg):
+        self.known = [k for k in load_known() if k["property"] == prop and k["status"] == "known"]
+        self.by_name = {(k["rule"], k["key"]["fn"].rpartition("::")[2], k["key"]["site"]): k for k in self.known}
+        self.by_role = {(k["rule"], k["key"]["role"], k["key"]["site"]): k for k in self.known if k["key"].get("role")}
+        self.facts = facts_by_cfg
+        self._roles = None
+
+    def _role_sets(self):
+        if self._roles is None:
+            import rulebase, rules_dir, rules_store
+            r = {"dir_encoder": set(), "store_adder": set(), "store_layout": set()}
+            for facts in (self.facts or {}).values():
+                ctx = rulebase.Ctx(facts)
+                try:
+                    r["dir_encoder"] |= set(f["path"] for f in rules_dir.dir_encoders(ctx))
+                    adt, roles = rules_store.store_adt(ctx)
+                    if roles:
+                        r["store_adder"] |= set(f["path"] for f in rules_store.adders(ctx, roles))
+                    r["store_layout"] |= set(f["path"] for f in rules_store.finishers(ctx))
+                except Exception:
+                    pass
+            self._roles = r
+        return self._roles
+
+    def match(self, rule, fn, site):
+        k = self.by_name.get((rule, str(fn).rpartition("::")[2], site))
+        if k is not None:
+            return k
+        for (r_, role, s_), k in self.by_role.items():
+            if r_ == rule and s_ == site and str(fn) in self._role_sets().get(role, ()):
+                return k
+        return None
+
+
 def run_rules(prop, facts_by_cfg, notes):
     """returns (obligations, per_rule_counts, functions_analysed)"""
     spec = registry.PROPERTIES[prop]
@@ -148,15 +188,15 @@ def main():
             return 2
 
     merged = merge(obs)
-    known = [k for k in load_known() if k["property"] == prop and k["status"] == "known"]
-    known_keys = {(k["rule"], k["key"]["fn"], k["key"]["site"]): k for k in known}
+    kidx = KnownIndex(prop, facts)
     violations = []
     matched = []
     for k, r in sorted(merged.items()):
         if r["ok"]:
             continue
-        if k in known_keys:
-            matched.append((r, known_keys[k]))
+        hit = kidx.match(k[0], k[1], k[2]) if isinstance(k, tuple) and len(k) == 3 else None
+        if hit is not None:
+            matched.append((r, hit))
         else:
             violations.append(r)
 
